@@ -442,6 +442,7 @@ func init() {
 			{Name: "PAIR-BLOCKED", What: "ChunkReader saves/sets/restores the reader's Blocked mode around its life", Floor: 1, Run: rulePairBlocked},
 			{Name: "CACHE-REWIND", What: "a block served from the cache is rewound to its start on every path (a block positioned by an abandoned Seek is cached mid-block; added after sixth-round seed C13-g)", Floor: 1, Run: ruleCacheRewind},
 			{Name: "CHUNK-CLAMP", What: "ChunkReader.Read subtracts the reader's in-block position from the clamp exactly when the reader is in the chunk's end block (added after a blind second seed round)", Floor: 2, Run: ruleChunkClamp},
+			{Name: "CHUNK-ADVANCE", What: "index.ChunkReader.Read returns io.EOF of its own only where it has found the list of chunks empty: a chunk that is exhausted on entry (an empty one) makes it go on to the next, not end (added for a defect of the unchanged tree, repaired in the eighth batch)", Floor: 2, Run: ruleChunkAdvance},
 			{Name: "SETCHUNK-SEEKS", What: "bam.Reader.SetChunk always seeks to the chunk's Begin before installing it (added after a blind second seed round)", Floor: 1, Run: ruleSetChunkSeeks},
 			{Name: "BIT-VOFFSET", What: "all vOffset copies compute File<<16|Block and makeOffset is the inverse (bit domain, all values)", Floor: 6, Run: ruleVOffset},
 			{Name: "PATH-LASTCHUNK", What: "bgzf Read/ReadByte refresh lastChunk around every consume; no success return without it (a zero-length Read still steps over exhausted blocks, which ChunkReader relies on)", Floor: 2, Run: ruleLastChunk},
